@@ -66,6 +66,7 @@ type Exec struct {
 	LedDevice, LedCapture, LedCancel Value
 	ufMemo     map[string][]Value
 	DecodeFailKind *smt.Term
+	DecodedList    []decodedReg // values registered by verifrt.TOMLToken
 	WatcherChan Value
 	WatcherDone Value
 	Decoded    Value                                       // value registered by verifrt.TOMLBytes for the decoder stubs
@@ -1666,4 +1667,9 @@ func (ex *Exec) selectSeq(st *State, fr *Frame, in *ssa.Select) Value {
 	}
 	*st = *acc
 	return result
+}
+
+type decodedReg struct {
+	val  Value
+	kind *smt.Term // 0 decodes, 1 syntax error (*toml.DecodeError), 2 strict-mode error
 }
